@@ -390,6 +390,11 @@ def judge(ctx, runs: list, tag: str, allowed: dict | None = None) -> None:
             sig = f"{run['layer']}:{cfg_kind(c)}:{kind}@{a}:stuck-at:{nxt['a'] if isinstance(nxt, dict) else nxt}"
             divs = ctx.extra.setdefault("divergence_kinds", {})
             divs[sig] = divs.get(sig, 0) + 1
+            smp = ctx.extra.setdefault("divergence_samples", [])
+            if len(smp) < 3:
+                smp.append({"cfg": F.cfg_key(c), "layer": run["layer"], "matched": v["at"] - 1, "end": tr["end"],
+                            "inject": run.get("inject") or run.get("fault"),
+                            "events": [f"{e['a']}({e['t']},{e['j']})w{e['w']}:{e['r']}" for e in ev]})
             if len(ctx.notes) < 12:
                 ctx.note(f"divergence (model cannot reproduce the run, not a verdict): {sig}; matched {v['at'] - 1}/{len(ev)} "
                          f"events; end={tr['end']['files']} out={tr['end']['out']} tdir={tr['end']['tdir']}")
